@@ -526,6 +526,7 @@ def basicHistJudge : Judge := liftJudge fun input obs => do
   let mode := optStr input "mode"
   let mut table : UserTable := pairsOf input "users"
   let mut judgeable := true
+  let mut neverVis := false
   let mut bad : Option (String × String) := none
   let mut disagree : Option String := none
   let mut nInh : Nat := 0
@@ -545,7 +546,10 @@ def basicHistJudge : Judge := liftJudge fun input obs => do
     | "update" =>
       nUpd := nUpd + 1
       table := pairsOf op "users"
-      judgeable := optBool st "visible" || !optBool st "alive"
+      -- judged when the change is visible, or can never become visible (cache dead), or demonstrably reached the notification
+      -- mechanism (control instance / syncer hand-off) and still did not show within the bound
+      judgeable := optBool st "visible" || !optBool st "alive" || optBool st "ctl_visible"
+      neverVis := !optBool st "visible" && optBool st "alive" && optBool st "ctl_visible"
       if !optBool st "alive" then deadSeen := true
     | "req" =>
       -- two entries for one user: which one wins is unspecified in ETCD mode (map order): not judged
@@ -562,7 +566,8 @@ def basicHistJudge : Judge := liftJudge fun input obs => do
         let okShape := if got then optBytes st "auth_user" == u
           else optStr st "result" == "invalid" && (getNat st "status").toOption.getD 0 == 401
         if got != want && bad.isNone then
-          bad := some ((if !optBool st "alive" then "basic:stale-user-table-after-inherit:" else "basic:wrong-user-table:")
+          bad := some ((if !optBool st "alive" then "basic:stale-user-table-after-inherit:"
+              else if neverVis then "basic:update-never-visible:" else "basic:wrong-user-table:")
             ++ (if got then "accepted-" else "rejected-") ++ mode.toLower, s!"user {bs u}: got accepted={got}, current table says {want}")
         else if !okShape && disagree.isNone then
           disagree := some s!"user {bs u}: outcome shape (status / X-AUTH-USER)"
